@@ -67,9 +67,15 @@ def slices(obl, levels=(1, 2, 3)):
     return out
 
 
+RL_PER_MS = 12000    # resource units per millisecond of nominal budget (generous; wall-clock limits are the safety net)
+
+
 def _try(hyps, goal, cfg, tmo, want_model=False):
+    """One solver attempt.  The budget is a deterministic resource limit (z3 rlimit), so the
+    verdict does not depend on machine load; the wall-clock timeout / interrupt are safety nets."""
     s = z3.Solver()
-    s.set("timeout", int(max(tmo, 300)))
+    s.set("rlimit", int(max(tmo, 300) * RL_PER_MS))
+    s.set("timeout", int(max(tmo, 300) * 6))
     for k, v in cfg.items():
         s.set(k, v)
     s.add(*hyps)
@@ -78,16 +84,82 @@ def _try(hyps, goal, cfg, tmo, want_model=False):
     return r, s
 
 
-def discharge(obl, timeout_ms=20000, use_cvc5=True, want_model=False, **_):
+import hashlib
+import json
+import re
+
+_HINTS = None
+HINTS_PATH = os.path.join(os.path.dirname(os.path.dirname(os.path.abspath(__file__))), "proof_hints.json")
+
+
+def fingerprint(e):
+    """Hash of a formula with the numeric suffixes of fresh names erased."""
+    return hashlib.sha1(re.sub(r"!\d+", "!", e.sexpr()).encode()).hexdigest()[:16]
+
+
+def hints():
+    global _HINTS
+    if _HINTS is None:
+        try:
+            with open(HINTS_PATH) as f:
+                _HINTS = json.load(f)
+        except Exception:
+            _HINTS = {}
+    return _HINTS
+
+
+def hint_key(obl):
+    return re.sub(r":L\d+:", ":", obl.name) + "|" + fingerprint(obl.goal)
+
+
+def core_of(obl, hyps, cfg, tmo=30000):
+    """Unsat core (as hypothesis fingerprints) of a proved obligation."""
+    s = z3.Solver()
+    s.set("timeout", tmo)
+    s.set(unsat_core=True)
+    for k, v in cfg.items():
+        s.set(k, v)
+    names = {}
+    for i, h in enumerate(hyps):
+        b = z3.Bool("hyp!%d" % i)
+        names[str(b)] = h
+        s.assert_and_track(h, b)
+    s.add(z3.Not(obl.goal))
+    import threading
+    timer = threading.Timer(tmo / 1000.0 * 1.5 + 1, s.ctx.interrupt)
+    timer.start()
+    try:
+        r = s.check()
+    except z3.Z3Exception:
+        r = z3.unknown
+    finally:
+        timer.cancel()
+    if r != z3.unsat:
+        return None
+    return sorted({fingerprint(names[str(b)]) for b in s.unsat_core()})
+
+
+def discharge(obl, timeout_ms=20000, use_cvc5=True, want_model=False, record=None, **_):
     """Portfolio over relevance slices x solver configurations.  The first `unsat` proves the
     obligation (a subset of the hypotheses suffices); `sat` on the full set refutes it."""
     t0 = time.time()
     last = "unknown"
+    # 0. a recorded proof hint: the hypotheses that sufficed last time (soundness does not depend
+    #    on the hint: it only selects a subset of the real hypotheses)
+    h = hints().get(hint_key(obl))
+    if h:
+        want = set(h["core"])
+        sub = [x for x in obl.hyps if fingerprint(x) in want]
+        for cname, cfg in ([c for c in PORTFOLIO if c[0] == h.get("cfg")] + PORTFOLIO[:2])[:3]:
+            r, s = _try(sub, obl.goal, cfg, 8000)
+            if r == z3.unsat:
+                return {"status": "proved", "backend": "%s/hint-core[%d of %d hyps] (z3 %s)" % (cname, len(sub), len(obl.hyps), z3.get_version_string()),
+                        "seconds": time.time() - t0}
     sl = slices(obl)
     plan = []
-    for budget in (500, timeout_ms // 5):
+    for budget in (250, timeout_ms // 5):
         for sname, hyps in sl:
-            for cname, cfg in PORTFOLIO[:2] if budget == 500 else PORTFOLIO:
+            for cname, cfg in PORTFOLIO[:2] if budget == 250 else PORTFOLIO:
                 plan.append((sname, hyps, cname, cfg, budget))
     deadline = t0 + 2.5 * timeout_ms / 1000.0
     for sname, hyps, cname, cfg, budget in plan:
@@ -95,6 +167,9 @@ def discharge(obl, timeout_ms=20000, use_cvc5=True, want_model=False, **_):
             break
         r, s = _try(hyps, obl.goal, cfg, budget)
         if r == z3.unsat:
+            if record is not None:
+                core = core_of(obl, hyps, cfg)
+                record[hint_key(obl)] = {"core": core if core is not None else sorted({fingerprint(x) for x in hyps}), "cfg": cname}
             return {"status": "proved", "backend": "%s/%s (z3 %s)" % (cname, sname, z3.get_version_string()), "seconds": time.time() - t0}
         if r == z3.sat and sname == "all":
             out = {"status": "refuted", "backend": "%s (z3 %s)" % (cname, z3.get_version_string()), "seconds": time.time() - t0}
